@@ -42,6 +42,7 @@ type Session struct {
 	useSnap  bool // settle with goroutine snapshots instead of synctest.Wait
 	served   bool
 	nInvoked int
+	bubble   string
 	sfailed  map[string]bool // "rpc/end": a send failed
 	untagged []int           // caller RPCs started without any metadata (no x-rpc tag), oldest first
 }
@@ -245,11 +246,19 @@ func (s *Session) settle() {
 		synctest.Wait()
 		return
 	}
-	me := myBubble()
+	if s.bubble == "" {
+		s.bubble = myBubble()
+		if s.bubble == "" {
+			panic("settle: cannot identify the bubble of the driver goroutine")
+		}
+	}
+	me := s.bubble
 	stable := 0
 	last := -1
 	for i := 0; ; i++ {
-		runtime.Gosched()
+		for k := 0; k < 4; k++ {
+			runtime.Gosched()
+		}
 		seq := s.Log.Seq()
 		ok := true
 		for _, g := range Snapshot() {
@@ -263,7 +272,7 @@ func (s *Session) settle() {
 		}
 		if ok && seq == last {
 			stable++
-			if stable >= 2 {
+			if stable >= 3 {
 				return
 			}
 		} else {
